@@ -9,7 +9,10 @@ pub mod c06;
 pub mod c07;
 pub mod c08;
 pub mod c09;
+pub mod c10;
+pub mod c11;
 pub mod c14;
+pub mod c16;
 pub mod c18;
 
 pub fn all() -> Vec<Box<dyn Property>> {
@@ -23,7 +26,10 @@ pub fn all() -> Vec<Box<dyn Property>> {
         Box::new(c07::C07),
         Box::new(c08::C08),
         Box::new(c09::C09),
+        Box::new(c10::C10),
+        Box::new(c11::C11),
         Box::new(c14::C14),
+        Box::new(c16::C16),
         Box::new(c18::C18),
     ]
 }
